@@ -141,7 +141,8 @@ def body_into_portable(cap, kind=None, wrong=False, caps=None):
 
 def replay_case(ctx, case):
     a = ctx.get_native().ask({'op': 'registry_laws', 'seed': ctx.seed})
-    f = [x for x in a.get('failed', []) if x.get('law') == 'faithful']
+    # 'closed' (a handed-out or referenced id has no entry) is a failure of "the id resolves to the image" as well
+    f = [x for x in a.get('failed', []) if x.get('law') in ('faithful', 'closed')]
     if a.get('panic') or a.get('crashed'): return True, None, {'detail': 'battery panicked'}
     return bool(f), None, (f[0] if f else None)
 
@@ -178,6 +179,13 @@ def run(ctx):
             ctx.notes.append('registry history n=%d not executable: %s' % (n, str(e)[:200])); continue
         hc = c01.collect(ctx, h, 'registry history', 'C02')
         for r in hc: cexs.append(dict(r, what='registry_history', defkind=5, where=r.get('failed')))
+    depth = max(40, 2 * size_threshold() + 4)
+    ctx.bounds['nested registration chain (every level resolves to its image)'] = 'depth %d (more than twice the largest size constant in the registry code)' % depth
+    try:
+        h = run_harness(ctx, 'registry-chain-%d' % depth, regstep.body_registry_chain(depth), timeout=900, jobs=1)
+        for r in c01.collect(ctx, h, 'registry chain', 'C02'): cexs.append(dict(r, what='registry_history', defkind=2, where=r.get('failed')))
+    except CheckInconclusive as e:
+        ctx.notes.append('registry chain not executable: %s' % str(e)[:200])
     hn = run_harness(ctx, 'negative-control', body_into_portable(1, 0, wrong=True), models=MODELS_C02); ctx.harnesses.pop()
     if not any(r['kind'] == 'cex' for r in hn.results): raise CheckInconclusive('negative control not refuted')
     if cexs:
